@@ -35,6 +35,14 @@ import (
 //	    X: the extension (= format) of the selected file: yaml (default), yml, json, toml; X:none = no
 //	       extension and any other word = that extension with YAML text inside (cmd/main.go at HEAD: viper
 //	       refuses an extension it does not know)
+//	    N:<stem>  the base name (without extension) of the selected file, default "selected" ("config" in
+//	       A:cwd mode): N:config with X:yaml is a file CALLED config.yaml that need not be the default file
+//	    P:<where> where the selected file lies and how its path is spelled in the option: abs (default: an
+//	       absolute path in another directory), sub (sub/<name>), dotsub (./sub/<name>), dotdot
+//	       (sub/../sub/<name>), here (./<name> in the working directory), plain (<name> in the working directory)
+//	    C:<dotted.key>=<value>  content of a ./config.yaml in the working directory.  It is the default file:
+//	       read when nothing is selected, a decoy when another file is selected (when the selected file IS
+//	       ./config.yaml the F:/Q: items are its content and C: items are dropped)
 //	    D:<ext>:<dotted.key>=<value>  a DECOY: a sibling of the selected file in the same directory with the
 //	       same stem and extension <ext> (json toml yaml yml properties env ini ...) that assigns the key.
 //	       Decoys are not the selected file: they must have no effect at all.
@@ -390,7 +398,8 @@ func c20Load(dir string, items []c20Item, types map[string]string) string {
 	seenE, seenF := map[string]bool{}, map[string]bool{}
 	root := &yamlNode{}
 	haveFile := false
-	how, selExt := "", ""
+	how, selExt, selStem, where := "", "", "", ""
+	cwdRoot, seenC, haveCwd := &yamlNode{}, map[string]bool{}, false
 	var flatSel [][2]string
 	type c20Decoy struct {
 		root *yamlNode
@@ -422,6 +431,21 @@ func c20Load(dir string, items []c20Item, types map[string]string) string {
 			if selExt == "" {
 				selExt = it.name
 			}
+		case "N":
+			if selStem == "" && it.name != "" && !strings.ContainsAny(it.name, "/\x00") {
+				selStem = it.name
+			}
+		case "P":
+			if where == "" {
+				where = it.name
+			}
+		case "C":
+			if seenC[it.name] {
+				continue
+			}
+			seenC[it.name] = true
+			cwdRoot.put(strings.Split(it.name, "."), c20Scalar("F", it.name, it.val, types))
+			haveCwd = true
 		case "D":
 			ext, key, ok := strings.Cut(it.name, ":")
 			if !ok || ext == "" || strings.ContainsAny(ext, "/.") || seenD[it.name] {
@@ -445,13 +469,39 @@ func c20Load(dir string, items []c20Item, types map[string]string) string {
 	fdir, stem := filepath.Join(dir, "etc"), "selected"
 	if how == "cwd" {
 		fdir, stem = cwd, "config"
+		where = "here"
+	}
+	if selStem != "" && how != "cwd" {
+		stem = selStem
+	}
+	base := stem + "." + selExt
+	if selExt == "none" {
+		base = stem
+	}
+	spelled := "" // how the path is written in the option
+	switch where {
+	case "sub":
+		fdir, spelled = filepath.Join(cwd, "sub"), "sub/"+base
+	case "dotsub":
+		fdir, spelled = filepath.Join(cwd, "sub"), "./sub/"+base
+	case "dotdot":
+		fdir, spelled = filepath.Join(cwd, "sub"), "sub/../sub/"+base
+	case "here":
+		fdir, spelled = cwd, "./"+base
+	case "plain":
+		fdir, spelled = cwd, base
+	default:
+		spelled = filepath.Join(fdir, base)
 	}
 	if err := os.MkdirAll(fdir, 0o755); err != nil {
 		return "HARNESS-ERROR " + err.Error()
 	}
-	selName := filepath.Join(fdir, stem+"."+selExt)
-	if selExt == "none" {
-		selName = filepath.Join(fdir, stem)
+	selName := filepath.Join(fdir, base)
+	// a ./config.yaml in the working directory (unless the selected file is that very file)
+	if cwdDefault := filepath.Join(cwd, "config.yaml"); haveCwd && !(haveFile && selName == cwdDefault) {
+		if err := os.WriteFile(cwdDefault, []byte(c20FileText("yaml", cwdRoot, nil)), 0o644); err != nil {
+			return "HARNESS-ERROR " + err.Error()
+		}
 	}
 	// the decoys first, so that the selected file wins should a decoy have the very same name
 	for _, ext := range decoyOrder {
@@ -468,11 +518,11 @@ func c20Load(dir string, items []c20Item, types map[string]string) string {
 		switch how {
 		case "cwd":
 		case "long":
-			args = append(args, "--config_file="+selName)
+			args = append(args, "--config_file="+spelled)
 		case "env":
-			env = append(env, "BHS_CONFIG_FILE="+selName)
+			env = append(env, "BHS_CONFIG_FILE="+spelled)
 		default:
-			args = append(args, "-C", selName)
+			args = append(args, "-C", spelled)
 		}
 		if err := os.WriteFile(selName, []byte(c20FileText(selExt, root, flatSel)), 0o644); err != nil {
 			return "HARNESS-ERROR " + err.Error()
@@ -799,6 +849,31 @@ func runC20(c *Ctx) error {
 				}
 				add("decoy-siblings+env", "load;E:"+ev+"="+cval+";F:"+k.Key+"="+a+";"+decoys("yaml", "json", "toml", "yml"))
 				add("decoy-siblings+env", "load;E:"+c20EnvName(o.Key)+"="+ov+";F:"+k.Key+"="+a+";X:yml;"+decoys("yml", "yaml"))
+				// the NAME and PLACE of the selected file: a file called config.yaml (config.yml, Config.yaml,
+				// xconfig.yaml) in ANOTHER directory is the selected file, not "the default file"; with and
+				// without a different ./config.yaml in the working directory; relative spellings; the working
+				// directory's own config.yaml selected explicitly
+				cdecoy := "C:" + k.Key + "=" + b + ";C:" + o.Key + "=" + ov
+				for _, mode := range []string{"flag", "long", "env"} {
+					for _, nm := range [][2]string{{"config", "yaml"}, {"config", "yml"}, {"Config", "yaml"}, {"xconfig", "yaml"}} {
+						in := "load;F:" + k.Key + "=" + a + ";N:" + nm[0] + ";X:" + nm[1] + ";A:" + mode
+						add("named-config-elsewhere:"+mode, in)
+						add("named-config-elsewhere+cwd-default:"+mode, in+";"+cdecoy)
+					}
+					for _, w := range []string{"sub", "dotsub", "dotdot"} {
+						in := "load;F:" + k.Key + "=" + a + ";N:config;P:" + w + ";A:" + mode
+						add("named-config-relative:"+mode, in)
+						add("named-config-relative+cwd-default:"+mode, in+";"+cdecoy)
+					}
+					add("cwd-file-explicit:"+mode, "load;F:"+k.Key+"="+a+";N:config;P:here;A:"+mode)
+					add("cwd-file-explicit:"+mode, "load;F:"+k.Key+"="+a+";N:config;P:plain;A:"+mode)
+					add("cwd-sibling-explicit:"+mode, "load;F:"+k.Key+"="+a+";N:Config;P:here;A:"+mode+";"+cdecoy)
+					add("cwd-sibling-explicit:"+mode, "load;F:"+k.Key+"="+a+";N:config;X:yml;P:here;A:"+mode+";"+cdecoy)
+					add("selected-elsewhere+cwd-default:"+mode, "load;F:"+k.Key+"="+a+";A:"+mode+";"+cdecoy)
+				}
+				add("cwd-default-only", "load;"+cdecoy)
+				add("cwd-default-only+env", "load;E:"+ev+"="+cval+";"+cdecoy)
+				add("cwd-not-default-name+cwd-default", "load;F:"+k.Key+"="+a+";X:yml;A:cwd;"+cdecoy)
 				add("decoy-only-cwd", "load;"+decoys("", "json", "toml", "yml")+";A:cwd")
 				add("cwd-not-default-name", "load;F:"+k.Key+"="+a+";X:yml;A:cwd")
 				for _, e := range []string{"none", "conf", "txt"} {
